@@ -108,21 +108,32 @@ mkpath(const char *path, mode_t mode, int is_dir)
 		copypath[last--] = '\0';
 
 	int status = 0;
-	char *pp = copypath;
-	char *sp;
-	while (status == 0 && (sp = strchr(pp, '/')) != 0) {
-		if (sp != pp) {
-			/* Neither root nor double slash in path */
-			*sp = '\0';
-			status = mkdir_if_need(copypath, mode);
-			*sp = '/';
-		}
-		pp = sp + 1;
-	}
 
-	/* Create last component if it is a directory */
-	if (is_dir && status == 0)
-		status = mkdir_if_need(copypath, mode);
+	/* Another process may remove an empty directory we have just created
+	 * (libovni cleans its empty temporary directories when a process
+	 * finishes), which makes the next mkdir() fail with ENOENT: start
+	 * again from the top, a bounded number of times. */
+	for (int attempt = 0; attempt < 100; attempt++) {
+		status = 0;
+		char *pp = copypath;
+		char *sp;
+		while (status == 0 && (sp = strchr(pp, '/')) != 0) {
+			if (sp != pp) {
+				/* Neither root nor double slash in path */
+				*sp = '\0';
+				status = mkdir_if_need(copypath, mode);
+				*sp = '/';
+			}
+			pp = sp + 1;
+		}
+
+		/* Create last component if it is a directory */
+		if (is_dir && status == 0)
+			status = mkdir_if_need(copypath, mode);
+
+		if (status == 0 || errno != ENOENT)
+			break;
+	}
 
 	free(copypath);
 	return status;
